@@ -15,6 +15,7 @@ structure CapState where
   filters : List LFilter := [.all]
   global : Option Nat := none
   bad : Bool := false
+  oracleOnly : Bool := false   -- a filter that looks at the context: judged by the harness's reference interpreter only
 
 def parseLFilter (t : String) : Option LFilter :=
   if t = "-" then some .all
@@ -41,6 +42,7 @@ def dumpStorage (sites : List CallSite) (li : Nat) (st : Storage) : List String 
 def capFlush (st : CapState) : List String :=
   if !st.active then [] else
   if st.bad || !(st.ops.all (opSiteOk st.sites.length)) then ["bad-input"] else
+  if st.oracleOnly then [] else
   let w := captureRun st.filters st.global st.sites st.ops.reverse
   (if w.panicked then ["panic"] else []) ++
     (w.storages.zipIdx.flatMap fun (s, i) => dumpStorage st.sites i s)
@@ -56,6 +58,7 @@ def capStep (st : CapState) (ts : List String) : CapState × List String :=
       else ({ st with bad := true }, [])
     | _ => ({ st with bad := true }, [])
   | ["layers", n] => ({ st with filters := List.replicate (n.toNat?.getD 1) .all }, [])
+  | ["lfilter", _, "inspan"] => ({ st with oracleOnly := true }, [])
   | ["lfilter", i, f] =>
     match i.toNat?, parseLFilter f with
     | some i, some f => ({ st with filters := if i < st.filters.length then st.filters.set i f else st.filters }, [])
